@@ -1,9 +1,10 @@
 """Contracts for data.TexArgs (C18): a list of groups/commands, view `items`.
 
-The parallel bookkeeping list `.all` (which also keeps whitespace strings) is NOT modelled: it is an opaque value whose
-mutators are no-ops, whose `index` finds its argument and whose `pop` returns an element textually equal to the one
-that was looked up.  Exceptions raised by lookups in `.all` are therefore outside the deductive part; the bounded
-breadth-first exploration of C18 covers them (that is how D12 shows up).
+The parallel bookkeeping list `.all` (which also keeps whitespace strings) is modelled only as far as its lookups can
+raise: it is assumed (class invariant, not re-proved) to hold every element the argument list had at function entry,
+and it holds what the call has added so far; `index` / `remove` of anything else raise ValueError (that is how D24
+shows up deductively).  Its order and its whitespace entries are not modelled; `pop` returns an element textually
+equal to the one that was looked up.  The bounded breadth-first exploration of C18 covers the rest.
 """
 import z3
 from z3 import (Function, IntSort, BoolSort, Length, If, And, Or, Not, Implies, Concat, Unit, Empty, IntVal, BoolVal,
@@ -76,15 +77,65 @@ def texargs_hook(eng, what, payload, st):
 REG.attr_hooks.insert(0, texargs_hook)
 
 
+def _all_text(v):
+    return ser(v.z) if v.ty == 'E' else strz(v)
+
+
+def _lookup_in_all(eng, fv, x, st):
+    """`x` is looked up in the bookkeeping list by textual equality.  The list is known to hold (class invariant,
+    assumed at entry: every element of the argument list occurs in `.all`) the items the object had at function entry,
+    plus whatever this call has added to it so far.  -> (state where the lookup succeeds, state where it cannot be
+    shown to: ValueError)"""
+    from pyvc.spec import QBool
+    obj = fv.a['bound'].a['obj']
+    ref = obj.a['ref']
+    added = st.ghost.get('$all_added:' + ref, [])
+    tx = _all_text(x)
+    items0 = eng.entry.heap.get(ref, {}).get('items') if eng.entry is not None else None
+    fail = st.fork()
+    for y in added:
+        fail.assume(_all_text(y) != tx)
+    if items0 is not None and items0.ty == 'seq':
+        from pyvc.engine import _index_terms
+        z0 = items0.z
+        # "no element of the entry list reads like x", instantiated where x was read from the current list (which is one
+        # insertion or removal away from the entry list) and at both ends
+        points = [IntVal(0), Length(z0) - 1]
+        for t in list(_index_terms(tx)) + list(st.interest.values()):
+            points += [t, simplify(t - 1), simplify(t + 1)]
+        for t in points:
+            fail.assume(Implies(And(0 <= t, t < Length(z0)), ser(z0[t]) != tx))
+        eng.assume_clause(fail, [QBool(BoolVal(True), IntVal(0), Length(z0), lambda j, z=z0, tx=tx: ser(z[j]) != tx)])
+    from pyvc.smt import quick_sat
+    if not quick_sat(fail.hyps(), 500):
+        fail = None
+    return st, fail
+
+
 def _call_allmethod(eng, fv, args, kwargs, st, node):
     m = fv.a['allmethod']
-    if m in ('append', 'insert', 'remove', 'clear', 'reverse'):
+    ref = fv.a['bound'].a['obj'].a['ref']
+    if m in ('append', 'insert'):
+        x = args[-1]
+        st.ghost['$all_added:' + ref] = st.ghost.get('$all_added:' + ref, []) + [x]
         return [('val', st, VNone)]
+    if m in ('clear', 'reverse'):
+        return [('val', st, VNone)]
+    if m == 'remove':
+        ok, fail = _lookup_in_all(eng, fv, args[0], st)
+        outs = [('val', ok, VNone)]
+        if fail is not None:
+            outs.append(('raise', fail, 'ValueError'))
+        return outs
     if m == 'index':
-        st.ghost['$all_lookup'] = args[0]
+        ok, fail = _lookup_in_all(eng, fv, args[0], st)
+        ok.ghost['$all_lookup'] = args[0]
         r = fresh('all_idx', IntSort())
-        st.assume(r >= 0)
-        return [('val', st, VI(r))]
+        ok.assume(r >= 0)
+        outs = [('val', ok, VI(r))]
+        if fail is not None:
+            outs.append(('raise', fail, 'ValueError'))
+        return outs
     if m == 'pop':
         x = st.ghost.get('$all_lookup')
         e = fresh('all_popped', E)
